@@ -23,6 +23,7 @@
 
 #include "decoder.h"           // for decode_file, destroy_decoder, new_decoder
 #include "tokens.h"            // for set_dialect, print_dialects, etc...
+#include "verif_hooks.h"       // for VERIF_LOOP
 
 
 static bool usage(FILE *f, const char *progname)
@@ -96,7 +97,7 @@ int wrapped_main(int argc, char *argv[])
     }
   assert(set_dialect(default_dialect_name, &dialect)); /* set the default */
   int opt;
-  while ((opt=getopt_long(argc, argv, "+d:D:l:", opts, &longindex)) != -1)
+  while ((opt=getopt_long(argc, argv, "+d:D:l:", opts, &longindex)) != -1) VERIF_LOOP(main_options)
     {
       switch (opt)
 	{
@@ -147,7 +148,7 @@ int wrapped_main(int argc, char *argv[])
       usage(stderr, progname);
       return 1;
     }
-  for (; optind < argc; ++optind)
+  for (; optind < argc; ++optind) VERIF_LOOP(main_files)
     {
       const char *name = argv[optind];
       FILE *f;
